@@ -61,7 +61,7 @@ def C02(ctx):
                    "all get_or_insert sequences of the bounded RobinHood model")
     # impl -> spec: random table histories with colliding hashes and tiny capacities
     n = 4 if ctx.quick else 24
-    record_and_validate(ctx, [("table_%d" % i, ["record", "table", "--seed", ctx.seed * 1000 + i, "--segments", 25, "--len", 60])
+    record_and_validate(ctx, [("table_%d" % i, ["record", "table", "--byhash", "never", "--seed", ctx.seed * 1000 + i, "--segments", 25, "--len", 60])
                               for i in range(n)], "TraceTable", "TraceTable.cfg")
     # builder level: random programs with tiny unique tables
     if ctx.quick:
@@ -157,6 +157,13 @@ def C11(ctx):
     _bdd_family(ctx, "c11", "TraceBdd_C11.cfg")
     _sdd_family(ctx, "c11", "TraceSdd_C11.cfg", nq=3, nt=16)
     _sdd_family(ctx, "sem", "TraceSdd_C11.cfg", nq=4, nt=24)
+    record_and_validate(ctx, td_jobs(ctx, 3 if ctx.quick else 16, 150), "TraceTopDown", "TraceTopDown_C11.cfg")
+    # the hash-identified builders drive the unique table in equality-by-hash mode: the table must then be a set
+    # keyed by the FULL 64-bit hash (RobinHood refines SetTable with ByHash = TRUE; wide hashes agreeing on 32 bits)
+    model_check(ctx, "RobinHood", "MC_RobinHood_byhash.cfg", "RobinHood in equality-by-hash mode refines SetTable keyed by hash", workers=6)
+    n = 3 if ctx.quick else 16
+    record_and_validate(ctx, [("table_bh_%d" % i, ["record", "table", "--byhash", "only", "--seed", ctx.seed * 1000 + i, "--segments", 25, "--len", 60])
+                              for i in range(n)], "TraceTable", "TraceTable.cfg")
 
 
 def C12(ctx):
@@ -218,3 +225,22 @@ def C13(ctx):
     jobs = [("sr_%d" % i, ["record", "semiring", "--seed", ctx.seed * 1000 + i, "--segments", 300 if ctx.quick else 1200] + ([] if ctx.quick else ["--thorough"]))
             for i in range(n)]
     record_and_validate(ctx, jobs, "TraceSemiring", "TraceSemiring.cfg")
+
+
+def C17(ctx):
+    ctx.assumptions += ["free text is produced by the driver's printers (harness/src/ser_rec.rs, ~40 lines) from the structured input that TLC sees; "
+                        "the serde JSON of the BDD/SDD/vtree serialisers is read by TLC itself",
+                        "s-expression variable names come from a fixed list whose byte order is a constant of the specification; no True/False constants (todo!() in the parser's consumer)",
+                        "DIMACS inputs have at least one variable and one clause and no empty clause for the expression parser (the code unwraps)"]
+    n = 4 if ctx.quick else 30
+    record_and_validate(ctx, [("ser_%d" % i, ["record", "ser", "--seed", ctx.seed * 1000 + i, "--segments", 50 if ctx.quick else 120,
+                                              "--nmax", 4 + (i % 2)]) for i in range(n)], "TraceSer", "TraceSer.cfg")
+
+
+def C18(ctx):
+    ctx.assumptions += ["the extern \"C\" symbols are linked from the rlib built with --features ffi and called with the C calling convention from the harness",
+                        "domain: bdd_topvar / bdd_low / bdd_high on non-constant diagrams only (documented TODO in the code)",
+                        "native reference for robdd_model_count = the composition it is documented to wrap (smooth over all variables + unit-weight count in the 64-bit field)"]
+    n = 6 if ctx.quick else 40
+    record_and_validate(ctx, [("ffi_%d" % i, ["record", "ffi", "--seed", ctx.seed * 1000 + i, "--segments", 5, "--len", 150 if ctx.quick else 300,
+                                              "--nmax", 4 + (i % 3)]) for i in range(n)], "TraceBdd", "TraceBdd_C18.cfg")
